@@ -1157,6 +1157,21 @@ void run_fit(vf::ctx_t& c)
                 " shrinkage=" + scat(shrinkage) + " subsample=" + scat(subsample) + " wscale=" + scat(wscale) + " protos=" + proto_desc;
         f.desc = desc;
 
+        // history: in a third of the cases the SAME model object has been fitted before (on the first half of the
+        // samples); everything below is judged on the state after the second fit - nothing of the first one may survive
+        if (rng.chance(0.33) && samples.size() >= 20)
+        {
+            try
+            {
+                const indices_t warmup = samples.slice(0, samples.size() / 2);
+                model.fit(dataset, warmup, *loss, params);
+                c.count("gboost_refits_of_a_fitted_object");
+            }
+            catch (const std::exception&)
+            {
+                c.count("gboost_warmup_fit_threw");
+            }
+        }
         ml::result_t result;
         try
         {
@@ -1390,6 +1405,19 @@ void run_fit(vf::ctx_t& c)
         f.desc = desc;
 
         ml::result_t result;
+        if (rng.chance(0.33) && samples.size() >= 20)
+        {
+            try
+            {
+                const indices_t warmup = samples.slice(0, samples.size() / 2);
+                model->fit(dataset, warmup, *loss, params);
+                c.count("linear_refits_of_a_fitted_object");
+            }
+            catch (const std::exception&)
+            {
+                c.count("linear_warmup_fit_threw");
+            }
+        }
         try
         {
             result = model->fit(dataset, samples, *loss, params);
